@@ -20,7 +20,7 @@ ASSUMPTIONS = ["the pointer generator is a scripted stream shared with the model
 
 IMPORTS = "Model.Vocab Tie.VocabTie"
 NAMES_VALID = ["A", "B", "Cc", "D_1"]
-NAMES_INVALID = ["a", "1A", "", "A-B", "Ab c"]
+NAMES_INVALID = ["a", "1A", "", "A-B", "Ab c", "Ab!", "B+", "A.b"]
 NAMES_RESERVED = ["Identity", "None", "Zero", "True", "AbsorbingElement"]
 ALPHABET = NAMES_VALID + NAMES_INVALID[:3] + NAMES_RESERVED
 
@@ -43,8 +43,10 @@ def gen_ops(rng):
     for k in NAMES_VALID[:3] + NAMES_INVALID[:2] + NAMES_RESERVED[:2]:
         for kind in ("own", "novocab", "raw"):
             ops.append(("add", k, kind))
+    for k in NAMES_INVALID[2:]:
+        ops.append(("add", k, "own"))       # valid prefix, illegal tail; empty name
     ops += [("add", "A", "foreign"), ("add", "B", "foreign-alg"), ("add", "A", "wrong-length"), ("add", "D_1", "wrong-length-raw")]
-    for k in NAMES_VALID + NAMES_INVALID[:2] + NAMES_RESERVED[:3] + ["__tracebackhide__"]:
+    for k in NAMES_VALID + NAMES_INVALID + NAMES_RESERVED[:3] + ["__tracebackhide__"]:
         ops.append(("get", k))
     ops += [("contains", "A"), ("create_pointer",)]
     ops += [("parse", ["A"]), ("parse", ["A", "B"]), ("parse", ["B", "Cc", "A"]), ("parse", ["a"]), ("parse", ["Identity", "A"]),
@@ -220,6 +222,35 @@ def run(rep, tier, rng):
         rep.count(f"history_len_{min(len(hist), 5)}{'+' if len(hist) >= 5 else ''}")
         for o in hist:
             rep.count("op_" + o[0])
+    # ---- other entry points that receive the vocabulary as a *target*: only populate=True may add keys ---------
+    import warnings
+    for al in algs.ALGS:
+        for strict in (True, False):
+            for populate in (None, False, True):
+                A = algs.alg_obj(al)
+                voc = spa.Vocabulary(d, strict=strict, algebra=A, pointer_gen=np.random.RandomState(1))
+                voc.add("A", np.array(script_vec(d, 0), float))
+                src = spa.Vocabulary(d, strict=True, algebra=A, pointer_gen=np.random.RandomState(2))
+                for i, k in enumerate(["A", "B", "Cc"]):
+                    src.add(k, np.array(script_vec(d, i + 3), float))
+                before = (list(voc.keys()), np.array(voc.vectors, copy=True))
+                with warnings.catch_warnings():
+                    warnings.simplefilter("ignore")
+                    o = c.outcome(lambda: src.transform_to(voc, populate=populate))
+                after = (list(voc.keys()), np.asarray(voc.vectors))
+                rep.case(("as-target", al, strict, populate))
+                rep.count("op_transform_to_into")
+                unchanged = after[0] == before[0] and np.array_equal(after[1], before[1])
+                prefix_ok = after[0][:len(before[0])] == before[0] and np.array_equal(after[1][:len(before[0])], before[1])
+                if populate is not True and not unchanged:
+                    rep.violation(f"transform_to(target, populate={populate}) changed the target vocabulary: keys {before[0]} -> {after[0]} ({al}, strict={strict})",
+                                  {"case": {"alg": al, "strict": strict, "populate": populate},
+                                   "python": "import numpy as np, nengo_spa as spa\nt = spa.Vocabulary(4); t.populate('A')\ns = spa.Vocabulary(4); s.populate('A; B')\n"
+                                             f"import warnings; warnings.simplefilter('ignore'); s.transform_to(t, populate={populate})\nassert list(t.keys()) == ['A'], list(t.keys())\n"})
+                if populate is True and not (prefix_ok and sorted(after[0]) == ["A", "B", "Cc"] and len(voc) == len(after[1]) == 3):
+                    rep.violation(f"transform_to(target, populate=True) did not append exactly the missing keys: {before[0]} -> {after[0]}",
+                                  {"case": {"alg": al, "strict": strict}})
+
     firsts = c.coq_eval("C09", "cases", IMPORTS, exprs, ty="nat", shard=60)
     for fd, (al, strict, cops, snaps, pylog) in zip(firsts, cases):
         if fd == len(cops):
